@@ -83,6 +83,29 @@ func genC09(g *G) {
 	offsets := []float64{0, 1, -40, 0.5, 1e6, -273.15, 100}
 	nsig := g.N(300, 6000)
 	exhaustiveBudget := 60 // signals of at most 16 bits whose raw values are enumerated completely (thorough tier)
+	// decision grid, the same on every run: identity / negative / fractional factors x zero / non-zero offsets x
+	// no range / two-sided / one-sided ranges x sign x two lengths (the conversions branch on exactly these)
+	type gridSpec struct {
+		L       int
+		signed  bool
+		sc, off float64
+		mn, mx  float64
+	}
+	var grid []gridSpec
+	for _, L := range []int{8, 12} {
+		for _, signed := range []bool{false, true} {
+			for _, sc := range []float64{1, -1, 2, 0.5, -0.01} {
+				for _, off := range []float64{0, 5, -40} {
+					for _, rg := range [][2]float64{{0, 0}, {10, 100}, {-1e9, 5}, {0, 1000}, {-20, -3}} {
+						grid = append(grid, gridSpec{L, signed, sc, off, rg[0], rg[1]})
+					}
+				}
+			}
+		}
+	}
+	if nsig < len(grid)+60 {
+		nsig = len(grid) + 60
+	}
 	for i := 0; i < nsig; i++ {
 		L := 1 + g.R.Intn(52)
 		if g.R.Intn(3) == 0 {
@@ -100,6 +123,11 @@ func genC09(g *G) {
 			mn, mx = 0, 1000 // one-sided in effect
 		default:
 			mn, mx = -1e9, 5
+		}
+		if i < len(grid) {
+			gs := grid[i]
+			L, signed, sc, off, mn, mx = gs.L, gs.signed, gs.sc, gs.off, gs.mn, gs.mx
+			g.Tag("decision-grid")
 		}
 		spec := fmt.Sprintf("%d %s %s %s %s %s", L, B(signed), fb(sc), fb(off), fb(mn), fb(mx))
 		g.Tag(fmt.Sprintf("len-class-%d", (L+7)/8))
